@@ -27,27 +27,29 @@ type c07Mode struct {
 	undo      string
 	redo      string
 	edit      string
-	editSaved string // an edit that is saved as an undo state of its own (a kill)
+	editSaved string   // an edit that is saved as an undo state of its own (a kill)
+	typed     []string // an edit that is NOT saved as a state of its own (typed text)
+	longSeed  []string // keys of the second seed: a longer buffer with the cursor at its start
 }
 
 func c07Modes(quick bool) []c07Mode {
 	emacsRC := "\"\\C-x\\C-]r\": redo\n"
 	e := []Action{Act("a", "a"), Act("b", "b"), Act("space", " "), Act("paste", "xy z"), Act("backward-delete-char", "\x7f"), Act("kill-word", "\x1bd"),
 		Act("unix-word-rubout", "\x17"), Act("kill-line", "\x0b"), Act("yank", "\x19"), Act("backward-char", "\x02"), Act("beginning-of-line", "\x01"),
-		Act("previous-history", "\x10"), Act("next-history", "\x0e"), Act("undo", "\x1f"), Act("redo", "\x18\x1dr")}
+		Act("previous-history", "\x10"), Act("next-history", "\x0e"), Act("undo", "\x1f"), Act("redo", "\x18\x1dr"), Act("M-2", "\x1b2"), Act("delete-char", "\x04")}
 	if !quick {
-		e = append(e, Act("delete-char", "\x04"), Act("unix-line-discard", "\x15"), Act("transpose-chars", "\x14"), Act("up-case-word", "\x1bu"),
+		e = append(e, Act("unix-line-discard", "\x15"), Act("transpose-chars", "\x14"), Act("up-case-word", "\x1bu"),
 			Act("forward-char", "\x06"), Act("end-of-line", "\x05"), Act("revert-line", "\x1br"), Act("transpose-words", "\x1bt"))
 	}
 	viRC := "set editing-mode vi\nset keymap vi-command\n\"\\C-r\": redo\n"
 	v := []Action{Act("i", "i"), Act("a-key", "a"), Act("b-key", "b"), Act("esc", "\x1b"), Act("x", "x"), Act("dw", "dw"), Act("D", "D"), Act("p", "p"),
-		Act("u", "u"), Act("redo", "\x12"), Act("h", "h"), Act("0", "0"), Act("k", "k"), Act("j", "j")}
+		Act("u", "u"), Act("redo", "\x12"), Act("h", "h"), Act("0", "0"), Act("k", "k"), Act("j", "j"), Act("2", "2")}
 	if !quick {
 		v = append(v, Act("X", "X"), Act("l", "l"), Act("$", "$"), Act("~", "~"), Act("cw", "cw"), Act("A", "A"))
 	}
 	return []c07Mode{
-		{name: "emacs", rc: emacsRC, alpha: e, undo: "\x1f", redo: "\x18\x1dr", edit: "q", editSaved: "\x19"},
-		{name: "vi", rc: viRC, pre: []string{"\x1b"}, alpha: v, undo: "u", redo: "\x12", edit: "x", editSaved: "P"},
+		{name: "emacs", rc: emacsRC, alpha: e, undo: "\x1f", redo: "\x18\x1dr", edit: "q", editSaved: "\x19", typed: []string{"q"}, longSeed: []string{"abcd", "\x01"}},
+		{name: "vi", rc: viRC, pre: []string{"\x1b"}, alpha: v, undo: "u", redo: "\x12", edit: "x", editSaved: "P", typed: []string{"i", "q", "\x1b"}, longSeed: []string{"i", "abcd", "\x1b", "0"}},
 	}
 }
 
@@ -90,7 +92,7 @@ func c07Probe(kind string, n int, H []string, walked bool, base int, t *harness.
 	if base >= len(lines) {
 		return "", "not judged: short trace"
 	}
-	shown := map[string]bool{}
+	shown := map[string]bool{"": true} // the line's initial content was shown at the first wait
 	for _, h := range H {
 		shown[h] = true
 	}
@@ -140,7 +142,31 @@ func c07Probe(kind string, n int, H []string, walked bool, base int, t *harness.
 		if final != at {
 			return "undo-redo-not-inverse", fmt.Sprintf("buffer %q, then %d undo(s) (%q) and %d redo(s) give %q", at, n, lines[base+1:min(base+1+n, len(lines))], n, final)
 		}
+	case "undo-all-edit-undo":
+		// lines: at, 10 undos, the typed edit (n-10 keys), one undo
+		k := base + 10
+		if base+n+1 >= len(lines) {
+			return "", "not judged: short trace"
+		}
+		bottom, edited, after := lines[k], lines[base+n], lines[base+n+1]
+		if lines[k-1] != bottom || edited == bottom {
+			return "", "not judged: bottom not reached within 10 undos / edit changed nothing"
+		}
+		if after != bottom {
+			return "undo-after-new-edit-reaches-discarded-branch", fmt.Sprintf("buffer %q: undoing all the way gives %q, typing gives %q, undoing that gives %q instead of %q", at, bottom, edited, after, bottom)
+		}
 	case "undo-edit-undo":
+		if base+3 < len(lines) && len(lines)-1-base > 3 {
+			// typed-edit variant: at, undo, several keys, undo
+			last := len(lines) - 1
+			if lines[base+1] == at || lines[last-1] == lines[base+1] {
+				return "", "not judged: nothing to undo / edit changed nothing"
+			}
+			if lines[last] != lines[base+1] {
+				return "undo-after-new-edit-reaches-discarded-branch", fmt.Sprintf("buffer %q: undo gives %q, typing gives %q, undoing that gives %q instead of %q", at, lines[base+1], lines[last-1], lines[last], lines[base+1])
+			}
+			return "", ""
+		}
 		// lines: at, after undo, after edit, after second undo: undoing the new edit
 		// must come back to the state undone to, never to the discarded branch
 		if base+3 >= len(lines) {
@@ -192,7 +218,7 @@ func runC07(c *Ctx) {
 	}
 	c.Rule = fmt.Sprintf("explicit-state BFS to depth %d over edit/movement/kill/yank/history-walk/undo/redo commands in emacs and vi, histories {none, 2 entries}; in every reached state 6 law probes (undo until stable, undo^n redo^n for n=1..3, undo+edit+redo, undo+edit+undo) are executed; buffers observed at every wait. non-trivial = distinct states reached (the state key contains the undo stacks)", depth)
 	c.Assumptions = []string{"'previously shown for that line' is checked against all buffers shown earlier in the session plus the history entries (the history position is not observable through the API)", "sequences beyond the depth bound are not explored (no random tail: sampling is a different technique)"}
-	c.Bounds = map[string]any{"depth": depth, "probes_per_state": 6, "histories": []string{"none", "[one, two words]"}}
+	c.Bounds = map[string]any{"depth": depth, "probes_per_state": 8, "histories": []string{"none", "[one, two words]"}}
 	H2 := []string{"one", "two words"}
 	for _, m := range c07Modes(quick) {
 		for hi, H := range [][]string{nil, H2} {
@@ -204,105 +230,118 @@ func runC07(c *Ctx) {
 			if H != nil {
 				cfg.Hist = []harness.HistSpec{{Kind: "default", Lines: H}}
 			}
-			pre := Keys(m.pre...)
-			type reached struct {
-				path []Action
-			}
-			var states []reached
-			check := func(sc *Scenario, seed *Seed, path []string, act *Action, job *harness.Job, t *harness.Trace) {
-				c.Evaluations++
-			}
-			sc := &Scenario{Name: fmt.Sprintf("%s/H%d", m.name, hi), Cfg: cfg, Seeds: []Seed{{Name: "start", Pre: pre}}, Alphabet: m.alpha, Depth: depth,
-				Want: harness.Want{Hash: 2, Obs: 1, SkipScreen: true}, Check: check, MaxStates: 6000}
-			// collect states: re-run BFS bookkeeping through a wrapper that records new states
-			sc.OnState = func(path []Action) { states = append(states, reached{path: append([]Action{}, path...)}) }
-			c.BFS(sc)
-			// law probes in every reached state
-			type probe struct {
-				kind string
-				n    int
-				st   int
-			}
-			var jobs []harness.Job
-			var probes []probe
-			for si, st := range states {
-				walked := false
-				for _, a := range st.path {
-					if a.Name == "previous-history" || a.Name == "next-history" || a.Name == "k" || a.Name == "j" {
-						walked = true
+			for si2, extraPre := range [][]string{nil, m.longSeed} {
+				pre := Keys(append(append([]string{}, m.pre...), extraPre...)...)
+				if si2 == 1 && quick && hi == 1 {
+					continue
+				}
+				type reached struct {
+					path []Action
+				}
+				var states []reached
+				check := func(sc *Scenario, seed *Seed, path []string, act *Action, job *harness.Job, t *harness.Trace) {
+					c.Evaluations++
+				}
+				seeds := []Seed{{Name: "start", Pre: pre}}
+				sc := &Scenario{Name: fmt.Sprintf("%s/H%d/seed%d", m.name, hi, si2), Cfg: cfg, Seeds: seeds, Alphabet: m.alpha, Depth: depth,
+					Want: harness.Want{Hash: 2, Obs: 1, SkipScreen: true}, Check: check, MaxStates: 6000}
+				// collect states: re-run BFS bookkeeping through a wrapper that records new states
+				sc.OnState = func(path []Action) { states = append(states, reached{path: append([]Action{}, path...)}) }
+				c.BFS(sc)
+				// law probes in every reached state
+				type probe struct {
+					kind string
+					n    int
+					st   int
+				}
+				var jobs []harness.Job
+				var probes []probe
+				for si, st := range states {
+					walked := false
+					for _, a := range st.path {
+						if a.Name == "previous-history" || a.Name == "next-history" || a.Name == "k" || a.Name == "j" {
+							walked = true
+						}
 					}
-				}
-				_ = walked
-				base := buildAnswers(&sc.Seeds[0], st.path)
-				if m.name == "vi" {
-					base = append(base, Key("\x1b")) // probes run from command mode
-				}
-				mk := func(kind string, n int, extra []string) {
-					ans := append(append([]harness.Answer{}, base...), Keys(extra...)...)
-					jobs = append(jobs, harness.Job{ID: len(jobs), Cfg: cfg, Calls: [][]harness.Answer{ans}, Want: harness.Want{Obs: 2, From: len(pre)}})
-					probes = append(probes, probe{kind, n, si})
-				}
-				var us []string
-				for i := 0; i < 24; i++ {
-					us = append(us, m.undo)
-				}
-				mk("undo-until-stable", 0, us)
-				for n := 1; n <= 3; n++ {
-					var ks []string
-					for i := 0; i < n; i++ {
-						ks = append(ks, m.undo)
+					_ = walked
+					base := buildAnswers(&sc.Seeds[0], st.path)
+					if m.name == "vi" {
+						base = append(base, Key("\x1b")) // probes run from command mode
 					}
-					for i := 0; i < n; i++ {
-						ks = append(ks, m.redo)
+					mk := func(kind string, n int, extra []string) {
+						ans := append(append([]harness.Answer{}, base...), Keys(extra...)...)
+						jobs = append(jobs, harness.Job{ID: len(jobs), Cfg: cfg, Calls: [][]harness.Answer{ans}, Want: harness.Want{Obs: 2, From: len(pre)}})
+						probes = append(probes, probe{kind, n, si})
 					}
-					mk("undo-redo", n, ks)
-				}
-				mk("undo-edit-redo", 0, []string{m.undo, m.edit, m.redo})
-				mk("undo-edit-undo", 0, []string{m.undo, m.editSaved, m.undo})
-			}
-			c.Pool.Map(jobs, func(j *harness.Job, t *harness.Trace) {
-				p := probes[j.ID]
-				st := states[p.st]
-				c.Evaluations++
-				c.Transitions++
-				c.Traces++
-				if t.Err != "" {
-					c.HarnessError(t.Err)
-					return
-				}
-				walked := false
-				base := 0
-				for _, a := range st.path {
-					base += len(a.Ans)
-					if a.Name == "previous-history" || a.Name == "next-history" || a.Name == "k" || a.Name == "j" {
-						walked = true
+					var us []string
+					for i := 0; i < 24; i++ {
+						us = append(us, m.undo)
 					}
-				}
-				if m.name == "vi" {
-					base++
-				}
-				fp, what := c07Probe(p.kind, p.n, H, walked, base, t)
-				if fp == "" {
-					if strings.HasPrefix(what, "not judged") {
-						c.Outcome(strings.SplitN(what, "@", 2)[0])
-					} else {
-						c.Outcome("ok/" + p.kind)
+					mk("undo-until-stable", 0, us)
+					for n := 1; n <= 3; n++ {
+						var ks []string
+						for i := 0; i < n; i++ {
+							ks = append(ks, m.undo)
+						}
+						for i := 0; i < n; i++ {
+							ks = append(ks, m.redo)
+						}
+						mk("undo-redo", n, ks)
 					}
-					return
+					mk("undo-edit-redo", 0, []string{m.undo, m.edit, m.redo})
+					mk("undo-edit-undo", 0, []string{m.undo, m.editSaved, m.undo})
+					mk("undo-edit-undo", 0, append(append([]string{m.undo}, m.typed...), m.undo))
+					// all the way down, then an edit that is not saved as a state of its own, then undo
+					var all []string
+					for i := 0; i < 10; i++ {
+						all = append(all, m.undo)
+					}
+					mk("undo-all-edit-undo", 10+len(m.typed), append(append(all, m.typed...), m.undo))
 				}
-				c.Outcome(fp)
-				if cd, ok := c.cands[fp]; ok {
-					cd.count++
-					return
-				}
-				jj := *j
-				c.Violate(Witness{Fingerprint: fp, What: fmt.Sprintf("[%s] after %v: %s; keys: %s", sc.Name, pathNames(st.path), what, ShowKeys(j.Calls[0])), Engine: "session", Job: &jj,
-					Input: jsonRaw(map[string]any{"Kind": p.kind, "N": p.n, "H": H, "Walk": walked, "Base": base})}, func() string {
-					f, _ := c07Probe(p.kind, p.n, H, walked, base, c.Pool.RunOne(&jj))
-					return f
+				c.Pool.Map(jobs, func(j *harness.Job, t *harness.Trace) {
+					p := probes[j.ID]
+					st := states[p.st]
+					c.Evaluations++
+					c.Transitions++
+					c.Traces++
+					if t.Err != "" {
+						c.HarnessError(t.Err)
+						return
+					}
+					walked := false
+					base := 0
+					for _, a := range st.path {
+						base += len(a.Ans)
+						if a.Name == "previous-history" || a.Name == "next-history" || a.Name == "k" || a.Name == "j" {
+							walked = true
+						}
+					}
+					if m.name == "vi" {
+						base++
+					}
+					fp, what := c07Probe(p.kind, p.n, H, walked, base, t)
+					if fp == "" {
+						if strings.HasPrefix(what, "not judged") {
+							c.Outcome(strings.SplitN(what, "@", 2)[0])
+						} else {
+							c.Outcome("ok/" + p.kind)
+						}
+						return
+					}
+					c.Outcome(fp)
+					if cd, ok := c.cands[fp]; ok {
+						cd.count++
+						return
+					}
+					jj := *j
+					c.Violate(Witness{Fingerprint: fp, What: fmt.Sprintf("[%s] after %v: %s; keys: %s", sc.Name, pathNames(st.path), what, ShowKeys(j.Calls[0])), Engine: "session", Job: &jj,
+						Input: jsonRaw(map[string]any{"Kind": p.kind, "N": p.n, "H": H, "Walk": walked, "Base": base})}, func() string {
+						f, _ := c07Probe(p.kind, p.n, H, walked, base, c.Pool.RunOne(&jj))
+						return f
+					})
 				})
-			})
-			c.Sample(map[string]any{"scenario": sc.Name, "alphabet": len(m.alpha), "states": len(states), "probe_executions": len(jobs)})
+				c.Sample(map[string]any{"scenario": sc.Name, "seed_keys": ShowKeys(pre), "alphabet": len(m.alpha), "states": len(states), "probe_executions": len(jobs)})
+			}
 		}
 	}
 	c.NontrivialN = c.States
